@@ -42,4 +42,30 @@ theorem responder_pinned_counterexample :
 example : runChunks (submit ("PASS".toList.map Cls.lit)) 0 [] ["PASS: PA".toList, "SS".toList] = 2 := by decide
 example : 0 < ("PASS".toList.map Cls.lit).length := by decide
 
+
+/-! ### FailingResponder -/
+
+/-- a failing-responder NEVER raises when its sentinel does not occur in the output, however the
+    output is split into reads -/
+theorem failing_never_raises_without_sentinel (p sent : Pat) (hs : 0 < sent.length) (chunks : List (List Char))
+    (h : findall sent chunks.flatten = []) : none ∉ frun p sent {} [] chunks :=
+  frun_never_raises p sent hs {} [] chunks rfl (by simpa using h)
+
+/-- a failing-responder raises when the sentinel arrives in a read after earlier reads that did not
+    contain it: the run over `pre ++ [c] ++ rest` produces ordinary responses for every read of `pre`
+    and raises exactly at `c`, whatever follows.  (The code sets its `tried` flag on ANY completed
+    submit - it tests the truthiness of a generator - so "after it has responded" is implied by
+    "after an earlier read"; a sentinel in the very first read does not raise.) -/
+theorem failing_raises_after_response (p sent : Pat) (hs : 0 < sent.length) (pre : List (List Char))
+    (hpre : pre ≠ []) (c : List Char) (rest : List (List Char))
+    (h1 : findall sent pre.flatten = []) (h2 : findall sent (pre.flatten ++ c) ≠ []) :
+    ∃ outs : List Nat, outs.length = pre.length ∧
+      frun p sent {} [] (pre ++ c :: rest) = outs.map some ++ [none] :=
+  frun_raises_at p sent hs pre c rest {} [] rfl (Or.inr hpre) (by simpa using h1) (by simpa using h2)
+
+/-- non-vacuity: "pw:" answered, then "bad" arrives split across two later reads -/
+example : frun ("pw:".toList.map Cls.lit) ("bad".toList.map Cls.lit) {} [] ["pw".toList, ": b".toList, "ad".toList, "x".toList]
+    = [some 0, some 1, none] := by decide
+example : none ∉ frun ("pw:".toList.map Cls.lit) ("bad".toList.map Cls.lit) {} [] ["pw".toList, ": ba".toList, "_d".toList] := by decide
+
 end Inv
